@@ -14,7 +14,7 @@ from sa.exc import CANCELLED
 from sa.flow import Interp, WithEnter, call_of
 
 CLAIM = {
-    "text": "Decides the containment structure: the per-client initializer context managers of the TCP and UDP servers swallow every Exception-class token thrown at their yield (summary computed from their own bodies: except*/except Exception without re-raise for TCP, for UDP every path of __aexit__ with the argument bound to an Exception or a group of Exceptions ends in `return True`, isinstance/match/`is None` tests decided from that abstract kind); in the request-handler driving generators every call, await and yield other than the initializer itself lies inside that context, so no Exception raised by any user hook (on_connection, handle before/after any yield or while handling a thrown error, on_disconnection) or thrown in by the server can leave the per-client task; the disconnection hook is registered before the request loop on a stack inside the catch-all; per-connection set-up tasks (accepted-socket task, TLS handshake wrapper) close the socket and re-raise only non-Exception BaseExceptions; the handshake error handler is total and never raises; accept errors with ignorable/capacity errnos do not leave the accept loop. Also decided: no input-dependent exception class can leave the two request receivers or the stream server's per-client task (escape analysis with generator objects followed through receivers and attributes); every exit of the UDP per-client task has taken at least one datagram off the client's queue; socket-level shutdown calls in close paths are protected by an arm that catches every OSError. In except arms of the server / listener modules an attribute of the caught exception is read only where every caught class has it or after an isinstance() narrowing that is evaluated first; the functions on the exit path of the UDP per-client catch-all contain no destructuring of a run-time value; keyword arguments configuring the per-connection timeouts are not crossed over.",
+    "text": "Decides the containment structure: the per-client initializer context managers of the TCP and UDP servers swallow every Exception-class token thrown at their yield (summary computed from their own bodies: except*/except Exception without re-raise for TCP, for UDP every path of __aexit__ with the argument bound to an Exception or a group of Exceptions ends in `return True`, isinstance/match/`is None` tests decided from that abstract kind); in the request-handler driving generators every call, await and yield other than the initializer itself lies inside that context, so no Exception raised by any user hook (on_connection, handle before/after any yield or while handling a thrown error, on_disconnection) or thrown in by the server can leave the per-client task; the disconnection hook is registered before the request loop on a stack inside the catch-all; per-connection set-up tasks (accepted-socket task, TLS handshake wrapper) close the socket and re-raise only non-Exception BaseExceptions; the handshake error handler is total and never raises; accept errors with ignorable/capacity errnos do not leave the accept loop. Also decided: no input-dependent exception class can leave the two request receivers or the stream server's per-client task (escape analysis with generator objects followed through receivers and attributes); every exit of the UDP per-client task has taken at least one datagram off the client's queue; socket-level shutdown calls in close paths are protected by an arm that catches every OSError. In except arms of the server / listener modules an attribute of the caught exception is read only where every caught class has it or after an isinstance() narrowing that is evaluated first; the functions on the exit path of the UDP per-client catch-all contain no destructuring of a run-time value; keyword arguments configuring the per-connection timeouts are not crossed over. Round 4: every builder of the actions sent to / thrown into a handler generator (found by what it returns) is total - nothing input-dependent and no explicit raise other than StopAsyncIteration leaves it.",
     "note": "Trusted: task-group semantics; calls made *inside* except/finally arms of the set-up tasks (logging, forceful close) and the pre-yield part of the initializers do not raise (listed in the evidence as residual assumptions). Not decided: liveness (that healthy clients are answered); behaviour for non-Exception BaseExceptions (by design they stop the server).",
     "technique": "exception-containment analysis by abstract interpretation over an exception-aware structured CFG with computed context-manager swallow summaries and an exception-class lattice; isinstance() tests on the caught exception are decided from the handler's token",
 }
@@ -359,7 +359,62 @@ def check_receiver_escape(eng, run):
             run.finding("C17.root", fn, _stmt_at(fn, tr[-1]) if tr else fn.node, f"`{t.split('.')[-1]}` raised while parsing one client's data can leave {fn.short} instead of being handed to that client's "
                         "handler as a ThrowAction: it ends the client task with an error and the server's task group is cancelled", tr)
         run.ob("C17.root", f"{fn.short}:no-input-dependent-escape", not bad, escaping=sorted(t.split(".")[-1] for t in toks))
-    run.floor("C17.root receivers / stream client task", n, 3)
+    # every other builder of the actions sent to / thrown into a handler generator (found by what it returns): total as well
+    listed = {"_RequestReceiver.next", "_BufferedRequestReceiver.next"}
+    for fn in eng.db.all_functions():
+        if isinstance(fn.node, ast.Lambda) or not fn.module.name.startswith("easynetwork.lowlevel.api_async.servers") or fn.short in listed or fn.cls is None:
+            continue
+        rets = [r for r in own_nodes(fn.node) if isinstance(r, ast.Return) and isinstance(r.value, ast.Call) and (dotted(r.value.func) or "").split(".")[-1] in ("SendAction", "ThrowAction")]
+        if not rets:
+            continue
+        n += 1
+        toks = summ.escapes(fn, fn.cls)
+        bad = sorted(t for t in toks if t not in CONFIG_TOKENS and t.split(".")[-1] != "StopAsyncIteration")
+        # an explicit raise that is not converted into an action by an enclosing catch-all
+        for t in bad[:2]:
+            tr = summ.witness.get((fn.qualname, fn.cls.qualname), {}).get(t, ())
+            run.finding("C17.root", fn, _stmt_at(fn, tr[-1]) if tr else fn.node, f"`{t.split('.')[-1]}` can leave {fn.short} instead of being returned as a ThrowAction: where the caller is not inside the per-client catch-all "
+                        "(the first datagram of a fresh handler) it ends the client task with an error and the server's task group is cancelled", tr)
+        # ... and no explicit `raise` (other than the end-of-stream StopAsyncIteration) leaves the builder, whether or not the
+        # escape analysis knows a cause for the arm it sits in (a crash of user-supplied protocol code is such a cause)
+        from sa.analyses.base import RuleAnalysis
+
+        class ExplicitRaise(RuleAnalysis):
+            tokens = ("StopAsyncIteration", "Exception")
+
+            def initial(self, f):
+                return [0]
+
+            def may_raise(self, node, fact):
+                # every call can fail (that is what the arms are for); the fact counts explicit raises on the path
+                if isinstance(node, ast.Call) and (dotted(node.func) or "").split(".")[-1] in ("SendAction", "ThrowAction", "RuntimeError"):
+                    return []
+                return ["Exception"] if isinstance(node, (ast.Call, ast.Await)) else []
+
+            def raised_token(self, node, fact):
+                if node.exc is None:
+                    return None
+                nm = (dotted(node.exc.func) if isinstance(node.exc, ast.Call) else dotted(node.exc)) or ""
+                return ["StopAsyncIteration"] if nm.split(".")[-1] == "StopAsyncIteration" else ["Exception"]
+
+            def transfer(self, node, fact):
+                if isinstance(node, ast.Raise) and node.exc is not None and self.raised_token(node, fact) == ["Exception"]:
+                    return [1]
+                return [fact]
+
+            def handler_entry(self, handler, token, fact):
+                return [0]  # caught: contained
+
+        er = ExplicitRaise(eng)
+        out = Interp(er, fn).run()
+        esc = [(f, tr) for f, tr in out.exc.get("Exception", {}).items() if f == 1]
+        for f, tr in esc[:1]:
+            if not bad:
+                run.finding("C17.root", fn, _stmt_at(fn, tr[-1]) if tr else fn.node, f"an explicit raise can leave {fn.short} instead of being returned as a ThrowAction: where the caller is not inside the per-client "
+                            "catch-all (the first datagram of a fresh handler) it ends the client task with an error and the server's task group is cancelled", tr)
+        bad = bad or bool(esc)
+        run.ob("C17.root", f"{fn.short}:action-builder-is-total", not bad, escaping=sorted(t.split(".")[-1] for t in toks))
+    run.floor("C17.root receivers / stream client task", n, 4)
 
 
 def check_progress(eng, run):
@@ -459,6 +514,8 @@ def check_error_path_constructs(eng, run):
 
 
 def run(eng, run):
+    from sa.anchors import verify as _verify_anchor_names
+    _verify_anchor_names(eng, run)
     run.not_decided += NOT_DECIDED
     run.assumptions += ["task-group semantics: an exception that does not leave a task does not cancel its siblings",
                         "calls inside except/finally arms of set-up tasks (logging, forceful close) and the pre-yield part of the initializers do not raise"]
